@@ -614,10 +614,8 @@ def r5_installed_statement(chk, fx):
         raise F.AnchorLost("Maybe<Installed>::read_xml not found")
     chk.analysed(name)
     paths = A.Interp(fx, crates=(AGENT,), max_paths=6000).explore(name)
-    flags = set()
-    for p in paths:
-        if any(v is True and "'reject')" in k for k, v in p.assume.items()):
-            flags |= {e[1] for e in p.assigns() if e[2] == A.lit(True)}
+    from .c16 import reject_flags
+    flags = reject_flags(paths)
     if not flags:
         raise F.AnchorLost("Maybe<Installed>::read_xml: the arm recognising <reject> sets no flag")
     loops = sorted({(e[2] or {}).get("l", 0) for p in paths for e in p.trace if e[0] == "loop-exit"})
@@ -629,7 +627,8 @@ def r5_installed_statement(chk, fx):
         ex = [e for e in p.trace if e[0] == "loop-exit"]
         if p.end not in ("return", "fallthrough") or not ex or (ex[-1][2] or {}).get("l", 0) != outer:
             continue
-        if not all(p.assumed_bool("«loop:%s»" % f) is True for f in flags):
+        vals = [v for v in (p.assumed_bool("«loop:%s»" % f) for f in flags) if v is not None]
+        if not vals or not all(vals):
             continue
         if not (A.is_res(p.ret) and p.ret[2] == "Ok"):
             continue
